@@ -16,6 +16,7 @@ package main
 
 import (
 	"fmt"
+	"os"
 	"strconv"
 	"strings"
 
@@ -364,7 +365,9 @@ func main() {
 	// Section B first: when a helper of Section A is broken, the lint-level witness (a workspace and
 	// the missing / unexpected annotation) is the first failing input, the string-level ones follow
 	sectionB(run, r.Fork(2))
-	sectionA(run, r.Fork(1))
+	if os.Getenv("C05_WS") == "" {
+		sectionA(run, r.Fork(1))
+	}
 	reportTiming()
 	run.Finish()
 }
